@@ -89,7 +89,7 @@ static parsec_barrier_t BAR;
 
 /* reference queue */
 static int pending[6], prio[6], dist[6], seq[6], nseq, npending, returned[6];
-static int ties_seen, dist_order_seen;
+static int ties_seen, dist_order_seen, last_k = -1, resched_done;
 
 /* build the ring first..first+n-1 in index order with the real ring helpers and hand it to
  * the scheduler */
@@ -112,6 +112,7 @@ static void do_select(void)
 {
     int32_t d = -77;
     parsec_task_t *t = SELECT(&ES0, &d);
+    last_k = -1;
     if (npending == 0) {
         VASSERTM(t == NULL, "select on an empty scheduler returns NULL");
         return;
@@ -142,7 +143,7 @@ static void do_select(void)
 #else
     VASSERTM(d == 0, "select reports distance 0");
 #endif
-    pending[k] = 0; returned[k]++; npending--;
+    pending[k] = 0; returned[k]++; npending--; last_k = k;
 }
 
 int main(void)
@@ -166,12 +167,32 @@ int main(void)
 #endif
 #endif
     int s1 = IN_RANGE(0, N1);
+#if defined(RESCHED)
+    VASSUME(s1 >= 1);                  /* the re-scheduled task is the first one selected */
+#endif
 
     do_schedule(0, N1, d1);
+#if defined(RESCHED)
+    /* the runtime re-schedules a task it could not run with the distance it came back with + 1.
+     * Which task came back first is enumerated by the driver (RESCHED = its index) and the step is
+     * unconditional: a symbolic task / distance / presence of the step makes the spq bucket list
+     * symbolic (no verdict in 20 min). */
+    do_select();
+    VASSUME(last_k == RESCHED);
+    {
+        int k = RESCHED, nd = dist[RESCHED] + 1;
+        parsec_list_item_singleton(&task(RESCHED)->super);
+        pending[k] = 1; dist[k] = nd; seq[k] = nseq++; npending++; returned[k]--; resched_done++;
+        int rc = SCHEDULE(&ES0, task(RESCHED), nd);
+        VASSERTM(rc == PARSEC_SUCCESS, "re-schedule reports success");
+    }
+    for (int i = 1; i < N1; i++) if (i < s1) do_select();
+#else
     for (int i = 0; i < N1; i++) if (i < s1) do_select();
+#endif
     do_schedule(N1, N2, d2);
     do_schedule(N1 + N2, N3, d3);
-    for (int i = 0; i < NT; i++) if (npending > 0) do_select();
+    for (int i = 0; i < NT + 1; i++) if (npending > 0) do_select();
     VASSERTM(npending == 0, "every scheduled task has been selected");
     for (int i = 0; i < NT; i++) VASSERTM(returned[i] == 1, "each task selected exactly once");
     do_select();                       /* must be NULL now */
@@ -180,6 +201,8 @@ int main(void)
     /* at least two distinct distances: a task was selected although a higher-priority one was
      * pending at a larger distance */
     if (dist_order_seen > 0 && s1 < N1) VWITNESS("spq: lower-priority task at a smaller distance selected before a higher-priority one further away");
+#elif defined(RESCHED)
+    if (resched_done == 1 && s1 < N1 && prio[N1] >= prio[0]) VWITNESS("a selected task was re-scheduled with a larger distance while others were pending");
 #else
     if (ties_seen > 0 && (N1 >= 2 ? (s1 >= 1 && s1 < N1) : s1 == 1) && prio[N1] > prio[0]) VWITNESS("tie between pending tasks and a later ring with a higher priority");
 #endif
